@@ -10,7 +10,7 @@ import subprocess
 import sys
 
 ROOT = os.path.dirname(os.path.dirname(os.path.abspath(__file__)))
-BUILD = os.path.join(ROOT, 'build')
+BUILD = os.environ.get('VERIF_BUILD') or os.path.join(ROOT, 'build')
 RUNNER = os.path.join(BUILD, 'runner')
 RUNNER_RACE = os.path.join(BUILD, 'runner_race')
 DRIVER = os.path.join(BUILD, 'ocaml', 'driver')
